@@ -1,5 +1,5 @@
 (* C35 -- SPSCRingBuffer is an exactly-once bounded FIFO.
-   Statements only.  Model: Model/SpscModel.v (one step = one atomic load/store of head_/tail_ or one slot payload access of
+   Statements only.  Model: Model/SpscModel.v (one step = one atomic load/store of head_/tail_ or one slot payload access (placement-new, move-out, destructor call) of
    dispenso::SPSCRingBuffer: try_push/try_emplace, the try_pop variants, try_push_batch, try_pop_batch, size/empty/full;
    thread 0 = producer, thread 1 = consumer, arbitrary operation scripts, any schedule, any buffer size
    2 <= kBufferSize < 2^63, power of two or not).  Element lifetimes: Base/Life.v ledger keyed by slot.
@@ -61,16 +61,33 @@ Proof. exact popb_avail_as_observed. Qed.
 Print Assumptions C35_pop_batch_count_as_observed.
 
 (* lifetimes: the ledger never records a misuse (no placement-new over a live element, no destructor on a dead or
-   never-constructed slot, no move-out of a dead slot); exactly the positions delivered-so-far .. accepted-so-far
-   (including the in-flight parts) hold live elements, every other slot holds none *)
+   never-constructed slot, no move-out of a dead slot).  With rl = the values the pop in flight has moved out and
+   dl = how many of them it has also destroyed (dl <= |rl|; the payload is destroyed BEFORE the head store that frees the
+   slot: the head store happens with dl = |rl|, see Inv / G_commit_r): the positions delivered + |rl| .. accepted (+ in
+   flight) hold live elements, delivered + dl .. delivered + |rl| hold a moved-from element that still awaits its destructor,
+   every other slot holds none. *)
 Theorem C35_lifetimes : forall k p0 p1 s, C35_domain k p0 p1 -> reach step (init k p0 p1) s ->
   l_errs (led s) = [] /\
   (forall p, zlen (popped s) + zlen (rl (tpc (th1 s))) <= p < zlen (pushed s) + zlen (wl (tpc (th0 s))) ->
              lget (led s) (p mod K s) = Alive) /\
-  (forall p, zlen (pushed s) + zlen (wl (tpc (th0 s))) <= p < zlen (popped s) + zlen (rl (tpc (th1 s))) + K s ->
-             is_live (lget (led s) (p mod K s)) = false).
+  (forall p, zlen (popped s) + dl (tpc (th1 s)) <= p < zlen (popped s) + zlen (rl (tpc (th1 s))) ->
+             lget (led s) (p mod K s) = MovedFrom) /\
+  (forall p, zlen (pushed s) + zlen (wl (tpc (th0 s))) <= p < zlen (popped s) + dl (tpc (th1 s)) + K s ->
+             is_live (lget (led s) (p mod K s)) = false) /\
+  0 <= dl (tpc (th1 s)) <= zlen (rl (tpc (th1 s))).
 Proof. exact spsc_lifetimes. Qed.
 Print Assumptions C35_lifetimes.
+
+(* the payload is dead before the head store that hands its slot back to the producer: when the consumer is about to store
+   head (single pop or batch), every slot it is about to release holds no live element *)
+Theorem C35_payload_dead_before_release : forall k p0 p1 s, C35_domain k p0 p1 -> reach step (init k p0 p1) s ->
+  match tpc (th1 s) with
+  | PPopStoreHead c v => is_live (lget (led s) c) = false
+  | PQStoreHead hp cnt acc => forall j, 0 <= j < cnt -> is_live (lget (led s) ((zlen (popped s) + j) mod K s)) = false
+  | _ => True
+  end.
+Proof. exact spsc_payload_dead_before_release. Qed.
+Print Assumptions C35_payload_dead_before_release.
 
 (* ~SPSCRingBuffer() run in a state where no transfer is in flight leaves no slot with a live element and records no
    misuse: every element constructed by a push was destroyed exactly once (by a pop or by the destructor) *)
@@ -101,7 +118,7 @@ Print Assumptions C35_run_reach.
 Example C35_nonvacuous :
   let p0 := [OPush 1; OPushBatch [2; 3; 4]; OPush 5; OPush 6] in
   let p1 := [OPop; OPopBatch 1; OSize] in
-  let sched := [0;0;0;0;0;0;0;0;0;0;0;1;1;1;1;1;0;0;0;0;1;1;1;1;1;1;1;1;1;1;1;1] in
+  let sched := [0;0;0;0;0;0;0;0;0;0;0;1;1;1;1;1;1;0;0;0;0;1;1;1;1;1;1;1;1;1;1;1;1;1] in
   C35_domain 3 p0 p1 /\
   let '(s, tr, st) := run_spsc 100 3 p0 p1 sched in
   st = SDone /\ pushed s = [1; 2; 6] /\ popped s = [1; 2] /\ contents s = [6] /\
